@@ -86,3 +86,9 @@ def run(ctx):
     S.contexts({PS + '::' + n: S.full for n in ['handle_network_event', 'service', 'handle_user_event', 'get_next_service_timepoint', 'reset']})
     em = set(S.names_of(S.entry_mask[norm(dq.path)]))
     ctx.ob(em <= {'PendingConnack', 'Connected'}, 'typestate: dequeue can only execute in %s (never while Disconnected)' % sorted(em), 'dequeue-states', loc=dq.loc())
+    # ---- added after seeds C10-3a / C10-3b: retransmissions keep their place at the head of the resubmit queue, and only genuine
+    # retransmissions carry the DUP flag the close handler uses to recognise them (facts shared with C04)
+    from . import shared
+    n_ = shared.import_obligations(ctx, 'C04', lambda o: o['rule'] in ('R-C04-5', 'R-C04-6') and any(k in o['key'] for k in ('current-requeue|', 'sa-dup-before-move', 'sa-use-after-drain', 'sa-retained')),
+                                   'R-C10-3', 'an interrupted retransmission returns to the front of the resubmit queue; restarted publishes lose their DUP mark')
+    ctx.floor(n_, 5, 'retransmission-order obligations shared with C04', rule='R-C10-3')
